@@ -25,12 +25,16 @@ inductive Atom where
   | alive        -- `thread.is_alive()`
   | claim        -- `thread.claim_finish()`: SIDE EFFECT - the first asker gets True, everybody later False
   | plain        -- the current thread has no claim to make (`getattr(current_thread(), 'claim_finish', None) is None`)
+  | timed        -- the execution being finalized is the one `_execute_with_timeout` started the current thread for
+                 -- (`getattr(current_thread(), <mark>, None) is context`); a tree that never asks treats EVERY
+                 -- execution that finishes on a thread with a claim as that one (the protocol before the repair
+                 -- "an execution that merely finishes on such a thread used up the claim")
   | haveStdout   -- `self._current_stdout` is non-empty
   | other (n : Nat)   -- some other condition (n = index into the generated file's comment table)
   deriving Repr
 
 def Atom.same : Atom → Atom → Bool
-  | .alive, .alive | .claim, .claim | .plain, .plain | .haveStdout, .haveStdout => true
+  | .alive, .alive | .claim, .claim | .plain, .plain | .timed, .timed | .haveStdout, .haveStdout => true
   | .other a, .other b => a == b
   | _, _ => false
 
@@ -167,13 +171,19 @@ def finalizes (p : Path) : Bool :=
   p.exit.normal && p.evs.any Ev.isStop && before Ev.isPop Ev.isAppend p.evs
 
 /-- with the claim protocol: at most one claim, made before anything is touched; made unless the thread is an
-ordinary one; lost => SystemExit without touching anything; won / ordinary thread => the finalization -/
+ordinary one; lost => SystemExit without touching anything; won / ordinary thread => the finalization.
+The machine's student thread finalizes the execution it was started for (`timed` answered yes, or never asked).
+Where the code tells that execution from others finishing on the same thread (`timed` answered no: an execution
+nested in the timed one, a grading script that itself runs under `timeout()`), those others must finalize like
+on an ordinary thread WITHOUT taking the thread's one-shot claim. -/
 def studentPathChecks (p : Path) : Bool :=
   count Ev.isAskClaim p.evs ≤ 1 && (!p.evs.any Ev.isAskClaim || noneBefore Ev.touches Ev.isAskClaim p.evs) &&
-  (match lookup p.env .claim with
-   | some false => !p.evs.any Ev.touches && p.exit.isSystemExit
-   | some true => finalizes p
-   | none => lookup p.env .plain == some true && finalizes p)
+  (match lookup p.env .timed, lookup p.env .claim with
+   | some false, none => finalizes p
+   | some false, some _ => false
+   | _, some false => !p.evs.any Ev.touches && p.exit.isSystemExit
+   | _, some true => finalizes p
+   | _, none => lookup p.env .plain == some true && finalizes p)
 
 /-- does `_stop_mocking` start by checking the claim?  `some false` = the pinned shape (never asks, always
 finalizes). -/
